@@ -75,4 +75,24 @@ CHECKS = {
                      "elements below 2e-4 of the row maximum may be present in one row only (zero-length end-point / corner ties); "
                      "this replaces the property's geometric screen", "bins and geometries are sampled"],
     ),
+    "C10": dict(
+        level="fault_enumeration",
+        parts=[dict(harness="chk_C10", variant="seq", src="checks/chk_C10.cpp",
+                    runs=dict(quick=320, thorough=80000), wall_cap=dict(quick=160, thorough=2400))],
+        rule=("one case = one generated image (index ranges with negative minima, sizes 1..12, origin, voxel sizes, six value "
+              "distributions, exam information) x output setting (7 number types x 2 byte orders x 5 scale requests) x one of eight "
+              "classes: fault-free round trip; transparent short/EINTR I/O; data file truncated at EVERY length; write error at EVERY "
+              "write call; crash (lost / torn / complete write) at EVERY write call; read error at EVERY read call; dynamic image "
+              "through the Interfile container and through the Multi container (round trip + every member truncated at 64+ lengths "
+              "incl. all frame boundaries).  Per case the enumeration over fault positions is complete; cases are seeded draws.  "
+              "Non-trivial: every case; distinct = distinct event-log hash."),
+        components=dict(real=REAL_COMMON + ["InterfileOutputFileFormat, Interfile/Multi dynamic output formats, write_basic_interfile, read_from_file<>, "
+                                            "interfile header reader, convert_array / find_scale_factor, read_data / write_data"],
+                        stub=STUB_IO),
+        assumptions=["process-crash model (no fsync in STIR); crash class starts from an empty directory (C10 makes no claim about an old "
+                     "header next to a new data file)", "positions compared with relative tolerance 2e-5 (the header prints 6 significant "
+                     "digits); generated voxel sizes / origins have <= 5 significant digits",
+                     "unsigned output types are only asked to store non-negative data"],
+        distinct_by_hash=True,
+    ),
 }
